@@ -446,20 +446,48 @@ def r2_conversion(ctx):
     S.ev.run(fn.body)
     iloc = S.root("uset.iloc")
     cl = S.cells(iloc)
+    DOF = S.root("uset.index.get_level_values('dof')")
+    cols = S.root("__x[0, 1:]")
+    cols = untuple(unfn(cols)[1][1])[1]
+
+    def rows_of(mask):
+        """the `dof` values a row mask selects: dof == k, unions of such masks, np.isin(dof, (k, ...)); None when not recognised"""
+        u = unfn(mask) if is_rat(mask) else None
+        if u is None:
+            return None
+        if u[0] == "cmp:Eq" and len(u[1]) == 2:
+            a, b = u[1]
+            if eq(b, DOF):
+                a, b = b, a
+            if eq(a, DOF) and b.is_const():
+                return {int(b.const_value())}
+            return None
+        if u[0] == "mask:BitOr":
+            x, y = rows_of(u[1][0]), rows_of(u[1][1])
+            return None if x is None or y is None else x | y
+        sc = split_call(mask)
+        if sc is not None and sc[0] in ("np.isin", "np.in1d", ".isin") and len(sc[1]) == 2 and eq(sc[1][0], DOF):
+            t = untuple(sc[1][1])
+            if t is not None and all(x.is_const() for x in t):
+                return {int(x.const_value()) for x in t}
+        return None
+
     dofs = []
-    good = True
+    good, known = True, True
     for ix, val, node in cl:
-        k = None
-        for cand in (1, 2, 3, 4, 5, 6):
-            w = S.root(f"__x[uset.index.get_level_values('dof') == {cand}, 1:]")
-            uw = unfn(w)
-            if uw is not None and eq(ix, uw[1][1]):
-                k = cand
-        dofs.append(k)
-        good = good and k is not None and eq(val, F.fn("idx", iloc, ix) * LC)
-    ok = good and sorted(dofs) == [1, 3]
-    ctx.check(ok, "uset_convert: the length factor is applied to exactly the rows that hold lengths - row 1 (grid location) and row 3 (origin of the grid's "
-                  "output coordinate system); row 2 holds ids and rows 4-6 direction cosines", fn, {"rows": dofs, "stores": [(_r(i, 100), _r(v, 120)) for i, v, _ in cl]})
+        t = untuple(ix) if is_rat(ix) else None
+        k = rows_of(t[0]) if t is not None and len(t) == 2 and eq(t[1], cols) else None
+        if k is None:
+            known = False
+            continue
+        dofs.extend(sorted(k))
+        good = good and eq(val, F.fn("idx", iloc, ix) * LC)
+    if not known or not cl:
+        ctx.error("uset_convert: a store into the USET table was not recognised (rows selected by `dof`, columns 1:)", fn, [(_r(i, 120), _r(v, 120)) for i, v, _ in cl])
+    else:
+        ok = good and sorted(dofs) == [1, 3]
+        ctx.check(ok, "uset_convert: the length factor is applied to exactly the rows that hold lengths - row 1 (grid location) and row 3 (origin of the grid's "
+                      "output coordinate system); row 2 holds ids and rows 4-6 direction cosines", fn, {"rows": dofs, "stores": [(_r(i, 100), _r(v, 120)) for i, v, _ in cl]})
     r = S.ret()
     ok = isinstance(r, tuple) and len(r) == 2 and eq(r[1], S.root("ref") * LC)
     ctx.check(ok, "uset_convert: a reference location (three coordinates) is scaled by the same length factor", fn, None if ok else _r(r))
@@ -723,8 +751,9 @@ def r5_cbcheck_quantities(ctx):
     ffs = [c for c in S.calls("_solve_eig")]
     sig = signature(cs.func(ctx, CB, "_solve_eig"))
     pf = place(ffs[0][1], ffs[0][2], sig) if len(ffs) == 1 else {}
+    pf = [pf.get(nm) for nm in sig]           # (fout, k, m, bset, n_freefree_modes) by position: the names of a private function may change
     ff = S.ev._opaque("_solve_eig", ffs[0][1], ffs[0][2]) if len(ffs) == 1 else None
-    ok = len(ffs) == 1 and eq(pf.get("k"), K) and eq(pf.get("m"), M) and S.same(pf.get("bset"), "bseto") and is_rat(ff)
+    ok = len(ffs) == 1 and len(pf) >= 4 and eq(pf[1], K) and eq(pf[2], M) and S.same(pf[3], "bseto") and is_rat(ff)
     ctx.check(ok, "cbcheck: the free-free eigensolution is computed for the same stiffness, mass and boundary set", ffs[0][3] if ffs else fn)
     if not ok:
         return
@@ -900,7 +929,9 @@ def r6_coordchk(ctx):
     NZ = f"{kbb}.any(axis=0)"
 
     def run(trim):
-        S = Run(ctx, fn, inline=inl, consts=consts, callv=_solve_model, cond=cond, run=False)
+        # parameters of the private function are bound by position (fout, K, bset, refpoint, grids, ttl, verbose, rb_normalizer): their names may change
+        names = ("fout", "K", "bset", "refpoint", "grids", "ttl", "verbose", "rb_normalizer")
+        S = Run(ctx, fn, args=[F.sym(n) for n in names], inline=inl, consts=consts, callv=_solve_model, cond=cond, objs=names, run=False)
         S.sign("len(bset) - 6", "pos")
         S.truth(f"(~{NZ}).any()", trim)
         S.truth("verbose", False)
